@@ -1,0 +1,33 @@
+//go:build verif
+
+// Hooks for the verification harness in /verif (C15). Compiled only with `-tags verif`;
+// thin exported wrappers around unexported identifiers, no behaviour of their own.
+package apk
+
+import (
+	"io"
+	"regexp"
+)
+
+// VerifRegexps returns the compiled expressions whose submatch slices are indexed.
+func VerifRegexps() map[string]*regexp.Regexp {
+	return map[string]*regexp.Regexp{
+		"versionRegex":       versionRegex,
+		"packageNameRegex":   packageNameRegex,
+		"repoRE":             repoRE,
+		"signatureFileRegex": signatureFileRegex,
+	}
+}
+
+// VerifParseAlpineVersion calls parseAlpineVersion.
+func VerifParseAlpineVersion(repo string) (string, bool) { return parseAlpineVersion(repo) }
+
+// VerifControlValue calls controlValue (the .PKGINFO key=value reader).
+func VerifControlValue(controlTar io.Reader, want ...string) (map[string][]string, error) {
+	return controlValue(controlTar, want...)
+}
+
+// VerifParseInstalledPerms calls parseInstalledPerms.
+func VerifParseInstalledPerms(s string) (uid, gid int, perms int64, err error) {
+	return parseInstalledPerms(s)
+}
